@@ -84,7 +84,8 @@ def strat_spec(draw):
             "dm_frac": draw(st.floats(0, 1, allow_nan=False)), "chan": draw(st.integers(0, 64)),
             "scl_kind": draw(st.sampled_from(["random", "random", "trivial", "mixed"])),
             "offs_kind": draw(st.sampled_from(["random", "random", "trivial", "mixed"])),
-            "wts_kind": draw(st.sampled_from(["random", "random", "trivial", "mixed"]))}
+            "wts_kind": draw(st.sampled_from(["random", "random", "trivial", "mixed"])),
+            "scl_zeros": draw(st.sampled_from([False, False, True]))}
 
 
 def check(spec, ctx):
